@@ -1028,6 +1028,11 @@ func c14Check(j []c14Ev, truth c14Truth) (key, what string, diags []c14Diag) {
 	escaped := map[string]bool{}           // peer was a sender of a sender-rejected snapshot while disconnected
 	allSrc := map[string]map[string]bool{} // snapshot key -> every peer that ever advertised it (validly or after escaping a rejection)
 	arrs := map[string]*c14Arr{}
+	// peers known to the node as sources of the snapshot on offer at some moment between the offer and the app's verdict: those are
+	// "the senders" a REJECT_SENDER verdict names. A peer that left before the offer and has not come back with this snapshot is not
+	// among them (the node has no record of it any more, and the statement does not ask for one).
+	offerSenders := map[string]bool{}
+	offerOpen := false
 	var cur *c14Attempt
 	session := 0
 	expectRetry := ""
@@ -1054,6 +1059,9 @@ func c14Check(j []c14Ev, truth c14Truth) (key, what string, diags []c14Diag) {
 				srcs[k] = map[string]bool{}
 			}
 			srcs[k][e.Peer] = true
+			if offerOpen && cur != nil && cur.key == k {
+				offerSenders[e.Peer] = true
+			}
 		case "rm":
 			// a peer that disappears stays a legitimate source of what it advertised (it was not rejected)
 			for k, m := range srcs {
@@ -1112,7 +1120,14 @@ func c14Check(j []c14Ev, truth c14Truth) (key, what string, diags []c14Diag) {
 			}
 			cur.live = false
 			cur.info = nil
+			offerSenders, offerOpen = map[string]bool{}, true
+			for p := range srcs[k] {
+				if !gone[k+"|"+p] {
+					offerSenders[p] = true
+				}
+			}
 		case "offer-v":
+			offerOpen = false
 			switch abci.ResponseOfferSnapshot_Result(e.Res) {
 			case abci.ResponseOfferSnapshot_ACCEPT:
 				cur.live = true
@@ -1122,6 +1137,10 @@ func c14Check(j []c14Ev, truth c14Truth) (key, what string, diags []c14Diag) {
 				rejFmt[cur.f] = true
 			case abci.ResponseOfferSnapshot_REJECT_SENDER:
 				for p := range srcs[cur.key] {
+					if !offerSenders[p] {
+						diag("diag_advertiser_gone_before_the_offer_not_rejected", "a peer that had advertised the snapshot left before it was offered; REJECT_SENDER does not reach it")
+						continue
+					}
 					rejPeer[p] = pos
 					if gone[cur.key+"|"+p] {
 						escaped[p] = true
